@@ -166,16 +166,25 @@ def declare_nd(e, shapes, K, table, tag="x", dtype="i8", seeds=None):
     return x, chunks
 
 
+# regions whose defect was repaired in /repo ("fix:" commits, see known_findings.json): nothing is skipped there any more
+REPAIRED = {"unique_nan_aux", "coarsen_empty_result", "coarsen_zero_chunk_other_axis"}
+# regions registered as OPEN known findings in known_findings.json: the assertions run and the check reports KNOWN-FINDING there
+OPEN = {"bincount_minlength_too_small", "zero_chunk_nd"}
+
+
 def known_flag(e, name, value):
-    """model variable naming the region of a finding on the unchanged tree: name == 1 iff the path's concrete inputs are inside the region"""
+    """model variable naming the region of a finding: name == 1 iff the path's concrete inputs are inside the region. Returns 1 only for regions
+    that are still skipped as a documented precondition (compress_long_condition)."""
     f = e.int(name, 0, 1)
     v = 1 if value else 0
     e.assume(lambda: f == v)
-    return v
+    return 0 if (name in REPAIRED or name in OPEN) else v
 
 
 def zero_chunk_nd(x, chunks):
-    return x.ndim >= 2 and x.size > 0 and builtins.any(c == 0 for ch in chunks for c in ch)
+    """(the general zero-size-chunk reshape defect was repaired in /repo; what is left is the degenerate case) a non-empty array of >= 2
+    dimensions with an axis of length 1 that is cut into several chunks, e.g. chunks (0, 1)"""
+    return x.ndim >= 2 and x.size > 0 and builtins.any(len(ch) > 1 and sum(ch) <= 1 for ch in chunks)
 
 
 def darr(x, chunks):
@@ -388,8 +397,8 @@ def mk_aligned(n, MULT):
         chunks = tuple(model[f"c{i}"] % 7 for i in range(n))
         x = (np.arange(sum(chunks)) * 7 + 3) % 5
         k = len(x) // m
-        if k == 0:
-            return          # coarsen_empty_result (finding)
+        if len(x) == 0:
+            return
         d = da.from_array(x, chunks=(chunks,))
         got = da.coarsen(np.sum, d, {0: m}, trim_excess=True).compute(scheduler="sync")
         want = x[:k * m].reshape(k, m).sum(axis=1)
@@ -546,7 +555,7 @@ def mk_bincount(N, K):
             same_or_raises(e, out, f"bincount(minlength={ml},weights={wk},split_every={se})",
                            lambda: da.bincount(d, weights=dw, minlength=ml, split_every=se), lambda: np.bincount(x, weights=w, minlength=ml), info,
                            dtype=not (w is not None and len(x) == 0),
-                           declared=not (ml > 0 and len(x) > 0 and int(x.max()) >= ml))      # bincount_minlength_too_small (finding)
+                           declared=True)      # inside the region bincount_minlength_too_small the declared shape is an open known finding
         return out.finish()
 
     return ob(f"bincount[n<={N},chunks<={K}]", setup, run)
